@@ -83,6 +83,27 @@ namespace vf
         {
             return h->owns(p, n);
         }
+        // start of the upstream block that contains p (nullptr if none)
+        const char* block_of(const char* p) const
+        {
+            auto it = h->live.upper_bound(const_cast<char*>(p));
+            if (it == h->live.begin())
+                return nullptr;
+            --it;
+            return p < it->first + it->second.bytes ? it->first : nullptr;
+        }
+        const char* newest_block() const
+        {
+            return h->order.empty() ? nullptr : h->order.back();
+        }
+        long releases() const
+        {
+            return h->releases;
+        }
+        std::size_t outstanding() const
+        {
+            return h->live.size();
+        }
         void check()
         {
             h->check();
@@ -130,6 +151,27 @@ namespace vf
         {
             return h->owns(p, n);
         }
+        // start of the upstream block that contains p (nullptr if none)
+        const char* block_of(const char* p) const
+        {
+            auto it = h->live.upper_bound(const_cast<char*>(p));
+            if (it == h->live.begin())
+                return nullptr;
+            --it;
+            return p < it->first + it->second.bytes ? it->first : nullptr;
+        }
+        const char* newest_block() const
+        {
+            return h->order.empty() ? nullptr : h->order.back();
+        }
+        long releases() const
+        {
+            return h->releases;
+        }
+        std::size_t outstanding() const
+        {
+            return h->live.size();
+        }
         void check()
         {
             h->check();
@@ -175,6 +217,25 @@ namespace vf
                 if (p >= (char*)o.memory && p + n <= (char*)o.memory + o.size)
                     return true;
             return false;
+        }
+        const char* block_of(const char* p) const
+        {
+            for (auto& o : w->out)
+                if (p >= (char*)o.memory && p < (char*)o.memory + o.size)
+                    return (const char*)o.memory;
+            return nullptr;
+        }
+        const char* newest_block() const
+        {
+            return w->out.empty() ? nullptr : (const char*)w->out.back().memory;
+        }
+        long releases() const
+        {
+            return w->released;
+        }
+        std::size_t outstanding() const
+        {
+            return w->out.size();
         }
         void check()
         {
@@ -224,6 +285,25 @@ namespace vf
                 if (p >= (char*)o.memory && p + n <= (char*)o.memory + o.size)
                     return true;
             return false;
+        }
+        const char* block_of(const char* p) const
+        {
+            for (auto& o : w->out)
+                if (p >= (char*)o.memory && p < (char*)o.memory + o.size)
+                    return (const char*)o.memory;
+            return nullptr;
+        }
+        const char* newest_block() const
+        {
+            return w->out.empty() ? nullptr : (const char*)w->out.back().memory;
+        }
+        long releases() const
+        {
+            return w->released;
+        }
+        std::size_t outstanding() const
+        {
+            return w->out.size();
         }
         void check()
         {
